@@ -17,6 +17,16 @@ Theorem truncation_rejected_decode : forall its n, items_ok its -> (n < length (
   kas_decode (firstn n (kas_write its)) = Err (if Nat.eqb n 0 then E_EOF else E_FORMAT).
 Proof. exact TruncProofs.truncation_rejected_decode. Qed.
 
+(* ... and in lazy mode (the skip_tables / skip_reference_sequence paths): a truncated file is
+   rejected when it is opened, or the last array (non-empty: in a tskit file the required uuid)
+   cannot be read any more, so the load fails there *)
+Theorem lazy_truncation : forall its pre it p q,
+  items_ok its -> its = pre ++ [it] -> 0 < isize it -> kas_write its = p ++ q -> q <> [] ->
+  kas_open false p = Err (match p with [] => E_EOF | _ => E_FORMAT end)
+  \/ exists rs r, kas_open false p = Ok (rs ++ [r], []) /\ length rs = length pre
+                  /\ rtype r = itype it /\ rlen r = ilen it /\ rblock r = Err E_FORMAT.
+Proof. exact CorruptProofs.lazy_truncation. Qed.
+
 Theorem eof_only_for_empty_stream : forall read_all s, kas_open read_all s = Err E_EOF <-> s = [].
 Proof. exact TruncProofs.eof_iff_empty. Qed.
 
@@ -98,6 +108,19 @@ Theorem key_len_rejected : forall its pre it post v y,
   (post = [] -> align8 (kw_k its + keys_len pre + v) <> align8 (kw_a its)) ->
   exists e, kas_open true (kw_header its ++ descs_bytes (altered_descs its pre it post (fun d => set_kl d v)) ++ y) = Err e.
 Proof. exact CorruptProofs.key_len_rejected. Qed.
+
+(* type byte: any other type that moves the (aligned) end of the array, and any unknown type, is
+   rejected by the container; same-size types are left to the table layer's type check *)
+Theorem type_rejected : forall its pre it post t y,
+  items_ok its -> its = pre ++ it :: post -> kw_fs its + 8 <= two64 -> 0 <= t < 256 ->
+  (t < kas_num_types ->
+   let a := align8 (layout_end (kw_a its) pre) in
+   match post with
+   | [] => a + ilen it * type_size t <> a + isize it
+   | _ => align8 (a + ilen it * type_size t) <> align8 (a + isize it)
+   end) ->
+  exists e, kas_open true (kw_header its ++ descs_bytes (altered_descs its pre it post (fun d => set_type d t)) ++ y) = Err e.
+Proof. exact CorruptProofs.type_rejected. Qed.
 
 (* the former F15 witness (top byte of array_len of populations/metadata_offset := 0x40) on the
    5188-byte file: rejected by the container reader *)
